@@ -42,14 +42,23 @@ struct LockState {
     writer:  Option<usize>,
 }
 
+/// what the trace records: hook events and the boundaries of the program operations of each thread
+#[derive(Clone, Copy)]
+enum Tr {
+    Ev(Event),
+    Begin(usize),
+    End(usize),
+}
+
 #[derive(Default)]
 struct Sched {
     waiting:  HashMap<usize, Event>,
     granted:  Option<usize>,
     finished: HashSet<usize>,
-    trace:    Vec<(usize, Event)>,
-    slots:    HashMap<(usize, usize), LockState>,
-    data:     HashMap<usize, LockState>,
+    trace:    Vec<(usize, Tr)>,
+    locks:    HashMap<usize, LockState>,
+    /// the Alloc event of the root block (created before the threads start)
+    root:     Option<Event>,
 }
 
 static SCHED: Mutex<Option<Arc<(Mutex<Sched>, Condvar)>>> = Mutex::new(None);
@@ -59,22 +68,17 @@ fn current() -> Option<Arc<(Mutex<Sched>, Condvar)>> {
 }
 
 fn is_blocking(e: &Event) -> bool {
-    matches!(e, Event::ReadLock { .. } | Event::WriteLock { .. } | Event::DataLock { .. } | Event::Rmw { .. })
+    matches!(e, Event::Lock { .. } | Event::Rmw { .. })
 }
 
 impl Sched {
     fn runnable(&self, tid: usize, e: &Event) -> bool {
         match e {
-            Event::ReadLock { node, slot } => self.slots.get(&(*node, *slot)).map(|l| l.writer.is_none()).unwrap_or(true),
-            Event::WriteLock { node, slot } => self
-                .slots
-                .get(&(*node, *slot))
+            Event::Lock { addr, write: false } => self.locks.get(addr).map(|l| l.writer.is_none()).unwrap_or(true),
+            Event::Lock { addr, write: true } => self
+                .locks
+                .get(addr)
                 .map(|l| l.writer.is_none() && l.readers.iter().all(|r| *r == tid))
-                .unwrap_or(true),
-            Event::DataLock { node, write } => self
-                .data
-                .get(node)
-                .map(|l| l.writer.is_none() && (!*write || l.readers.is_empty()))
                 .unwrap_or(true),
             _ => true,
         }
@@ -82,39 +86,31 @@ impl Sched {
 
     fn apply(&mut self, tid: usize, e: &Event) {
         match e {
-            Event::ReadLock { node, slot } => {
-                self.slots.entry((*node, *slot)).or_default().readers.insert(tid);
+            Event::Lock { addr, write: false } => {
+                self.locks.entry(*addr).or_default().readers.insert(tid);
             }
-            Event::ReadUnlock { node, slot } => {
-                self.slots.entry((*node, *slot)).or_default().readers.remove(&tid);
+            Event::Unlock { addr, write: false } => {
+                self.locks.entry(*addr).or_default().readers.remove(&tid);
             }
-            Event::WriteLock { node, slot } => self.slots.entry((*node, *slot)).or_default().writer = Some(tid),
-            Event::WriteUnlock { node, slot } => self.slots.entry((*node, *slot)).or_default().writer = None,
-            Event::DataLock { node, write } => {
-                let l = self.data.entry(*node).or_default();
-                if *write {
-                    l.writer = Some(tid)
-                } else {
-                    l.readers.insert(tid);
-                }
-            }
-            Event::DataUnlock { node, write } => {
-                let l = self.data.entry(*node).or_default();
-                if *write {
-                    l.writer = None
-                } else {
-                    l.readers.remove(&tid);
-                }
-            }
+            Event::Lock { addr, write: true } => self.locks.entry(*addr).or_default().writer = Some(tid),
+            Event::Unlock { addr, write: true } => self.locks.entry(*addr).or_default().writer = None,
             _ => {}
         }
     }
 }
 
 fn observer(e: Event) {
-    let Some(tid) = TID.with(|t| t.get()) else { return };
     let Some(s) = current() else { return };
     let (m, cv) = &*s;
+    let Some(tid) = TID.with(|t| t.get()) else {
+        if matches!(e, Event::Alloc { .. }) {
+            let mut g = m.lock().unwrap();
+            if g.root.is_none() {
+                g.root = Some(e);
+            }
+        }
+        return;
+    };
     let mut g = m.lock().unwrap();
     if is_blocking(&e) {
         g.waiting.insert(tid, e);
@@ -131,7 +127,13 @@ fn observer(e: Event) {
         g.waiting.remove(&tid);
     }
     g.apply(tid, &e);
-    g.trace.push((tid, e));
+    g.trace.push((tid, Tr::Ev(e)));
+}
+
+fn mark(tid: usize, m: Tr) {
+    if let Some(s) = current() {
+        s.0.lock().unwrap().trace.push((tid, m));
+    }
 }
 
 fn finished(tid: usize) {
@@ -187,7 +189,8 @@ fn run_program(tid: usize, root: Node, prog: Vec<String>) -> Vec<String> {
         DropReg,
         Text(String),
     }
-    for op in &prog {
+    for (opi, op) in prog.iter().enumerate() {
+        mark(tid, Tr::Begin(opi));
         let (c, rest) = op.split_at(1);
         let mut parts = rest.split(':');
         let r: usize = parts.next().and_then(|x| x.parse().ok()).unwrap_or(0);
@@ -229,6 +232,7 @@ fn run_program(tid: usize, root: Node, prog: Vec<String>) -> Vec<String> {
             }
             Res::Text(s) => s,
         });
+        mark(tid, Tr::End(opi));
     }
     // the remaining handles are dropped in register order
     for r in regs.iter_mut() {
@@ -335,27 +339,73 @@ fn run_k_inner(args: &[&str]) -> String {
     *SCHED.lock().unwrap() = None;
     let trace = std::mem::take(&mut m.lock().unwrap().trace);
 
-    // canonical rendering: addresses renumbered by first appearance (the root block is 0)
-    // (an address may be re-used after a block was freed: every Alloc starts a new identity)
+    // canonical rendering: blocks renumbered by allocation order (the root block is 0; an address may be re-used
+    // after a block was freed: every Alloc starts a new identity); lock addresses are resolved, in trace order, to the
+    // data lock or a slot lock of the block that contains them
+    struct Block {
+        id:         usize,
+        data_lock:  usize,
+        slot_locks: usize,
+        n_slots:    usize,
+    }
+    let stride = std::mem::size_of::<verif::RwLock<()>>().max(1);
     let mut ids: HashMap<usize, usize> = HashMap::new();
+    let mut blocks: Vec<Block> = Vec::new();
     ids.insert(root_addr, 0);
+    if let Some(Event::Alloc { data_lock, slot_locks, n_slots, .. }) = m.lock().unwrap().root {
+        blocks.push(Block { id: 0, data_lock, slot_locks, n_slots });
+    }
     let mut next_id = 1usize;
     let mut tr = Vec::new();
     for (t, e) in &trace {
-        if let Event::Alloc { ptr } = e {
+        let e = match e {
+            Tr::Begin(k) => {
+                tr.push(format!("{t}:({k}"));
+                continue;
+            }
+            Tr::End(k) => {
+                tr.push(format!("{t}:){k}"));
+                continue;
+            }
+            Tr::Ev(e) => e,
+        };
+        if let Event::Alloc { ptr, data_lock, slot_locks, n_slots } = e {
             ids.insert(*ptr, next_id);
+            blocks.push(Block { id: next_id, data_lock: *data_lock, slot_locks: *slot_locks, n_slots: *n_slots });
             next_id += 1;
         }
         let id = |a: usize| -> usize { ids.get(&a).copied().unwrap_or(9999) };
+        let lock = |addr: usize, write: bool, acquire: bool| -> String {
+            for b in blocks.iter().rev() {
+                if addr == b.data_lock {
+                    let c = match (write, acquire) {
+                        (true, true) => "D",
+                        (true, false) => "d",
+                        (false, true) => "E",
+                        (false, false) => "e",
+                    };
+                    return format!("{c}{}", b.id);
+                }
+                if addr >= b.slot_locks && addr < b.slot_locks + b.n_slots * stride && (addr - b.slot_locks) % stride == 0 {
+                    let c = match (write, acquire) {
+                        (true, true) => "W",
+                        (true, false) => "w",
+                        (false, true) => "R",
+                        (false, false) => "r",
+                    };
+                    return format!("{c}{}.{}", b.id, (addr - b.slot_locks) / stride);
+                }
+            }
+            format!("L?{addr:x}")
+        };
         let s = match e {
-            Event::ReadLock { node, slot } => format!("R{}.{}", id(*node), slot),
-            Event::ReadUnlock { node, slot } => format!("r{}.{}", id(*node), slot),
-            Event::WriteLock { node, slot } => format!("W{}.{}", id(*node), slot),
-            Event::WriteUnlock { node, slot } => format!("w{}.{}", id(*node), slot),
-            Event::DataLock { node, write } => format!("{}{}", if *write { "D" } else { "E" }, id(*node)),
-            Event::DataUnlock { node, write } => format!("{}{}", if *write { "d" } else { "e" }, id(*node)),
-            Event::Rmw { delta } => format!("{}{}", if *delta >= 0 { "+" } else { "" }, delta),
-            Event::Alloc { ptr } => format!("A{}", id(*ptr)),
+            Event::Lock { addr, write } => lock(*addr, *write, true),
+            Event::Unlock { addr, write } => lock(*addr, *write, false),
+            Event::Rmw { delta, order } => {
+                let o = if *order == std::sync::atomic::Ordering::AcqRel { String::new() } else { format!("~{order:?}") };
+                format!("{}{}{}", if *delta >= 0 { "+" } else { "" }, delta, o)
+            }
+            Event::Alloc { ptr, .. } => format!("A{}", id(*ptr)),
             Event::Free { ptr } => format!("F{}", id(*ptr)),
         };
         tr.push(format!("{t}:{s}"));
